@@ -109,6 +109,17 @@ let eval (fields : string list) : string =
             | None -> "_"
             | Some t -> String.concat "," (List.map (fun x -> string_of_int (int_of_n x)) t) in
           String.concat " " [ "ok"; hs h'; hv (Some out); txt ])
+  | "recreatename" -> (
+      (* recreatename <header> <hex bytes> <config> *)
+      let h = match nth fields 1 with
+        | "none" -> HAbsent | "utf8" -> HUtf8 | "latin1" -> HLatin1 | "w1252" -> HW1252
+        | "unknown" -> HUnknown | _ -> raise Bad_request in
+      let c = match nth fields 3 with
+        | "none" -> CfgNone | "utf8" -> CfgUtf8 | "latin1" -> CfgLatin1 | "w1252" -> CfgW1252
+        | _ -> raise Bad_request in
+      match recreate_name h (bytes_of_hex (nth fields 2)) c with
+      | None -> "err"
+      | Some out -> "ok " ^ hv (Some out))
   | _ -> raise Bad_request
 
 let () =
